@@ -251,6 +251,9 @@ func (eq *externalBaseQueue) Purge() {
 			j.Close()
 		}
 	}
+
+	// the queue may have become empty: let the dispatcher wake WaitUntilFinished callers
+	eq.w.notifyToPullNextJobs()
 }
 
 func (eq *externalBaseQueue) Close() error {
